@@ -243,6 +243,13 @@ static int decrunch_compress(HIO_HANDLE * in, void ** out, long * outlen)
 					}
 
 					if (outpos >= outsize) {
+						/* The output of a code stream is not bounded by
+						 * its length in any useful way: apply the unpack
+						 * ceiling (also keeps the int sizes in range). */
+						if (outsize > LIBXMP_DEPACK_LIMIT - OBUFSIZ) {
+							free(outbuf);
+							return -1;
+						}
 						outsize += OBUFSIZ;
 
 						tmp = (char_type *) realloc(outbuf, outsize + 2048);
